@@ -327,6 +327,18 @@ def make_scratch(prefix="verif-scratch-", log=None, cut=True, repo=None):
             src = src[:m.end()] + inj + src[m.end():]
             open(path, "w").write(src)
             lines.append(f"E3 write!-shadow: {f}")
+        # E4 (PEXT configuration under Kani only): cargo-kani offers no way to pass
+        # `-C target-feature=+bmi2`, so the compile-time gate in types/src/sliders/pext.rs is made
+        # conditional on not(kani).  Nothing else is touched; the intrinsic call itself is replaced by
+        # its specification with #[kani::stub] inside the harness (trusted hardware semantics).
+        pf = os.path.join(d, "types/src/sliders/pext.rs")
+        if os.path.exists(pf):
+            src = open(pf).read()
+            gate = '#[cfg(not(all(target_arch = "x86_64", target_feature = "bmi2")))]\ncompile_error!'
+            if gate in src:
+                src = src.replace(gate, '#[cfg(all(not(kani), not(all(target_arch = "x86_64", target_feature = "bmi2"))))]\ncompile_error!')
+                open(pf, "w").write(src)
+                lines.append("E4 pext compile-time gate made conditional on not(kani): types/src/sliders/pext.rs")
         # E1
         for f, name, harness in INJECT:
             path = os.path.join(d, f)
